@@ -198,7 +198,10 @@ def scenario(g, sim, base, flagsets, program, ops, uidcmd, hidden, check, SymDT)
     msgs = []
     for i, fs in enumerate(flagsets):
         lit = b'x' * (i + 1)
-        when = _dt.datetime(2020, 1, 10 + 2 * i, 12, 0, tzinfo=_dt.timezone.utc)
+        # written day != UTC day for the first two (RFC 3501: dates compare "disregarding time and timezone")
+        tzs = [(23, 30, -5), (0, 30, 2), (12, 0, 0), (23, 59, -11)]
+        hh, mm, off = tzs[i % len(tzs)]
+        when = _dt.datetime(2020, 1, 10 + 2 * i, hh, mm, tzinfo=_dt.timezone(_dt.timedelta(hours=off)))
         m = g['AppendMessage'](lit, when, frozenset(FL[c] for c in fs))
         cond, resp = w.run(0, g['AppendCommand'](w.tag(), g['Mailbox']('INBOX'), [m]))
         msgs.append({'uid': list(resp.code.uids)[0], 'flags': set(fs), 'size': len(lit),
